@@ -137,6 +137,7 @@ def sync_level(scr, tier, prop, prefix, plan, replay_file=None):
             states += r["distinct"]
             trans += r["states"]
             scs = [conv(raw, "%s-%05d" % (cfg.replace(".cfg", ""), i)) for i, raw in enumerate(raws)]
+            scs = [s for s in scs if s is not None]      # a converter may keep only its own slice of a shared family
             core = [s for s in scs if plan.get("core", lambda s: False)(s)]
             if quota and len(scs) > quota:
                 exhaustive = False
